@@ -33,6 +33,18 @@ PROPS = {
     "C16": dict(prop_file="props/C16.v", generators=ENG, module="harness.p_dyn",
                 slice="ToFunction.v with declared parameters vs the compiled function",
                 trusted=DYN_TRUST + ["ToFunction.v (hand-written; tied by the compile correspondence)"]),
+    "C06": dict(prop_file="props/C06.v", generators=[], module="harness.p_valid",
+                slice="Validity.v (verdict, message kinds) vs Network.is_valid on exhaustive small graphs and random graphs",
+                trusted=["no axioms", "Validity.v / Graph.v as models of Network.is_valid and the networkx graph (tied by the correspondence)",
+                         "the nine conditions as formalised in specs/C06_spec.v"]),
+    "C08": dict(prop_file="props/C08.v", generators=["T-tables"], module="harness.p_hist",
+                slice="Construct.v + Cache.v (generated invalidation table) vs Network on histories of calls and reads",
+                trusted=["no axioms", "Construct.v / Cache.v as models of networkx.DiGraph, functools.cached_property and "
+                         "util/funcs.py::invalidate_cache (tied by the history correspondence)",
+                         "translator tables.py (decorator lists of network.py -> gen/Tables.v)"]),
+    "C09": dict(prop_file="props/C09.v", generators=[], module="harness.p_hist",
+                slice="Construct.v vs Network on construction histories and the malformed-path stream",
+                trusted=["no axioms", "Construct.v as model of the construction calls on networkx.DiGraph (tied by the history correspondence)"]),
     "C10": dict(prop_file="props/C10.v", generators=ENG, module="harness.p_dyn",
                 slice="Blocks.v trees vs CasADi functions; Jacobian sparsity vs variable sets of the Spec trees",
                 trusted=DYN_TRUST + ["C10 is stated on Spec.v values; C01 identifies them with the model's outputs"]),
@@ -40,6 +52,10 @@ PROPS = {
                 slice="Blocks.v trees under a clamping option set vs NumPy step and CasADi functions",
                 trusted=["FunctionalExtensionality.functional_extensionality_dep (the only axiom; theorems hold for every numeric structure)",
                          "hand-written element-layer model Blocks.v (tied by the dynamics correspondence)"]),
+    "C13": dict(prop_file="props/C13.v", generators=["T-tables"], module="harness.p_sel",
+                slice="EngineSel.v vs use/get_current_engine on selection histories; recording engines for every (selected, explicit) pair",
+                trusted=["no axioms", "EngineSel.v as model of engines/core.py::use and the module-level selection",
+                         "translator forwarding.py (call sites of blocks/*.py, network.py -> gen/Tables.v) and its classification rule"]),
     "C14": dict(prop_file="props/C14.v", generators=ENG, module="harness.p_dyn",
                 slice="Blocks.v trees vs NumPy/CasADi on networks rebuilt in shuffled order",
                 trusted=DYN_TRUST + ["names do not occur in Blocks.v; their absence of influence on the implementation is checked dynamically"]),
